@@ -25,6 +25,7 @@ def gen(tier, rng):
         out.append((D.decode_line("token", False, D.render(D.obj([("access_token", "a"), ("token_type", "bearer"), ("expires_in", e)]), rng)), "expires-range"))
     for tt in D.TT + ["BEARER", "bearer\u0000", "Mac", "mAc", "MACx"]:
         out.append((D.decode_line("token", False, D.render(D.obj([("access_token", "a"), ("token_type", tt)]), rng)), "token-type-case"))
+    out += c05.source_literal_http(kinds, rng)
     # large, valid documents through a 200 reply (around and beyond 64 KiB): accepted like small ones
     for size in (65000, 65537, 70000):
         m_, known_ = D.family_doc("token", rng, False)
